@@ -494,6 +494,8 @@ def run_case(I, check, item):
 
 
 def run_shard(ctx):
+    if ctx.get('engine') in ('w9', 'w10'):
+        return run_wrapped(ctx)
     from .interp import Interp, show
     check, tier, seed, shard, nshards = ctx['check'], ctx['tier'], ctx['seed'], ctx['shard'], ctx['nshards']
     I = Interp(seed=seed * 7919 + shard, nprobes=10 if tier == 'quick' else 16)
@@ -561,6 +563,8 @@ def run_shard(ctx):
 
 def replay(case, check, seed=0):
     """re-execute one recorded case; returns list of (props, event json) violations for `check`"""
+    if case.get('kind') in ('w9', 'w10'):
+        return replay_wrapped(case, check, seed)
     from .interp import Interp
     I = Interp(seed=seed, nprobes=16)
     item = {'prog': case['prog'], 'form': case.get('form', 'c'), 'hole': case.get('hole'), 'prune': case.get('prune', False)}
@@ -642,3 +646,63 @@ def features(case, violation):
             tags.add('edge:%s>%s' % (o, n['x'][0].get('o') if isinstance(n['x'][0], dict) else '?'))
     walk(case.get('prog'), 0, [])
     return sorted(tags)
+
+
+# ----------------------------------------------------------------------- wrapper-driven workloads (W9, W10)
+WRAPPED_FOR = {'C02', 'C03', 'C04', 'C05', 'C08', 'C09', 'C10'}
+
+
+def plan(check, tier, seed, tp):
+    nsh = tp['nshards']
+    jobs = [('shard%02d' % sh, {'shard': sh, 'nshards': nsh}, tp['hashseeds'][sh % len(tp['hashseeds'])]) for sh in range(nsh)]
+    if check in WRAPPED_FOR:
+        jobs.append(('w9', {'engine': 'w9', 'shard': 0, 'nshards': 1}, 0))
+        jobs.append(('w10', {'engine': 'w10', 'shard': 0, 'nshards': 1}, 0))
+    return jobs
+
+
+def run_wrapped(ctx):
+    from . import wrapload
+    check = ctx['check']
+    eng = ctx['engine']
+    s = wrapload.run_w9(ctx['seed'], ctx['tier']) if eng == 'w9' else wrapload.run_w10()
+    viols, nviol, other = [], collections.Counter(), collections.Counter()
+    for P, ev in s.get('violations', []):
+        if check in P:
+            sig = '%s|%s|%s' % (':'.join((ev.get('symptom') or '').split(':')[:2]), ev.get('op'), eng)
+            nviol[sig] += 1
+            if nviol[sig] <= 2:
+                viols.append({'property': check, 'sig': sig, 'symptom': ev.get('symptom'), 'detail': ev.get('detail'), 'event': ev,
+                              'case': ev.get('case') or {'kind': eng}, 'show': '%s %s -> %r' % (ev.get('op'), ev.get('operands'), ev.get('real'))})
+        else:
+            other['|'.join(P) + ':' + (ev.get('symptom') or '').split(':')[0]] += 1
+    stats = dict(s.get('verdicts', {}))
+    if eng == 'w10' and (s.get('pytest_returncode') not in (0, None) or s.get('tests_failed')):
+        # with the monitors installed the suite must behave exactly as without them (transparency)
+        stats['w10-tests-not-green'] = 1
+    return {
+        'evaluations': s.get('boundary_events', 0), 'cases': s.get('meta_constructor_calls', s.get('tests_collected') or 0), 'keys': [],
+        'violations': viols, 'viol_counts': dict(nviol), 'other_property_violations': dict(other), 'stats': stats,
+        'by_op': {}, 'samples': [], 'monitor_errors': s.get('monitor_errors', []), 'timeouts': 0, 'truncated': False,
+        'extra': {eng + '_boundary_events': s.get('boundary_events', 0), eng + '_nested_events': s.get('nested_events', 0),
+                  eng + '_api_calls_checked': s.get('api_calls_checked', 0),
+                  eng + '_units': s.get('meta_constructor_calls', s.get('tests_collected') or 0)},
+    }
+
+
+def replay_wrapped(case, check, seed):
+    import json as _json, os, subprocess, sys, tempfile
+    from . import VERIF_DIR
+    if case['kind'] == 'w10':
+        from . import wrapload
+        s = wrapload.run_w10()
+        return [{'symptom': ev.get('symptom'), 'detail': ev.get('detail'), 'event': ev, 'sig': 'w10'} for P, ev in s.get('violations', []) if check in P]
+    code = ('import json,sys\nfrom rv import wrap\nfrom rv import meta as MT\nwrap.install(api=False)\nc=json.loads(sys.argv[1])\n'
+            'try:\n    getattr(MT.ME,c["ctor"])(*c["args"],**c.get("kw",{}))\nexcept Exception as e:\n    pass\n'
+            'print(json.dumps(wrap.violations,default=str))')
+    r = subprocess.run([sys.executable, '-W', 'ignore', '-c', code, _json.dumps(case)], capture_output=True, text=True, cwd=VERIF_DIR, timeout=120)
+    try:
+        vs = _json.loads(r.stdout.strip().splitlines()[-1])
+    except Exception:
+        return []
+    return [{'symptom': ev.get('symptom'), 'detail': ev.get('detail'), 'event': ev, 'sig': 'w9'} for P, ev in vs if check in P]
